@@ -188,6 +188,37 @@ pub fn damage_castling(m: &Model, shredder: bool) -> Option<Model> {
     None
 }
 
+/// A right naming a file of the side's back rank on which an *enemy* rook stands (correct wing).
+pub fn damage_castling_enemy_rook(m: &Model, shredder: bool) -> Option<Model> {
+    for c in 0..2u8 {
+        let Some(k) = m.king_sq(c) else { continue };
+        let back = if c == WHITE { 0 } else { 7 };
+        if rank_of(k) != back {
+            continue;
+        }
+        for w in 0..2usize {
+            if m.rights[c as usize][w].is_some() {
+                continue;
+            }
+            for f in 0..8u8 {
+                let right_wing = if w == 0 { (f as i8) > file_of(k) } else { (f as i8) < file_of(k) };
+                if !right_wing || m.sq[mk(f as i8, back).unwrap() as usize] != Some((ROOK, c ^ 1)) {
+                    continue;
+                }
+                if !shredder && f != (if w == 0 { 7 } else { 0 }) {
+                    continue;
+                }
+                let mut d = m.clone();
+                d.rights[c as usize][w] = Some(f);
+                if all_in(&d.defects(), Aspect::Castling) {
+                    return Some(d);
+                }
+            }
+        }
+    }
+    None
+}
+
 /// Well-formed EP squares on the mover's EP rank that the position does not support.
 pub fn damage_ep(m: &Model) -> Vec<(&'static str, u8)> {
     let mut out = vec![];
@@ -452,6 +483,8 @@ pub fn text_cases(m: &Model, shredder: bool) -> Vec<Option<TextCase>> {
     push("W.zero-digit", Some(with(0, &format!("0{}", f[0]))), Expect::Total);
     push("W.split-digit", Some(with(0, &f[0].replacen('8', "44", 1))), Expect::Total);
     push("W.castling-reversed", Some(with(2, &f[2].chars().rev().collect::<String>())), Expect::Total);
+    // operators added later are appended here so that earlier operator indices stay stable
+    push("K.right-on-enemy-rook", damage_castling_enemy_rook(m, shredder).map(|d| d.to_fen(shredder)), v("InvalidCastlingRights"));
     // truncation at every byte offset (the canonical record is ASCII)
     for cut in 0..rec.len() {
         cases.push(Some(TextCase { name: "W.truncate-at-byte", text: rec[..cut].to_string(), expect: Expect::Total, plain_entry_only: false }));
@@ -545,13 +578,14 @@ pub fn builder_cases(m: &Model) -> Vec<Option<BuilderCase>> {
         let mut found = None;
         'outer: for c in 0..2u8 {
             let Some(k) = m.king_sq(c) else { continue };
+            let back = if c == WHITE { 0 } else { 7 };
             for w in 0..2usize {
-                if m.rights[c as usize][w].is_some() {
-                    continue;
-                }
-                for f in 0..8u8 {
+                // files holding an own rook first (the subtle case), then any file
+                let mut files: Vec<u8> = (0..8u8).filter(|&f| m.sq[mk(f as i8, back).unwrap() as usize] == Some((ROOK, c))).collect();
+                files.extend(0..8u8);
+                for f in files {
                     let wrong = if w == 0 { (f as i8) <= file_of(k) } else { (f as i8) >= file_of(k) };
-                    if wrong {
+                    if wrong && m.rights[c as usize][w] != Some(f) {
                         let mut d = m.clone();
                         d.rights[c as usize][w] = Some(f);
                         if all_in(&d.defects(), Aspect::Castling) {
@@ -564,6 +598,7 @@ pub fn builder_cases(m: &Model) -> Vec<Option<BuilderCase>> {
         }
         cases.push(found.map(|d| BuilderCase { name: "B.right-wrong-side", state: BState::of(&d), expect: Some("InvalidCastlingRights") }));
     }
+    cases.push(damage_castling_enemy_rook(m, true).map(|d| BuilderCase { name: "B.right-on-enemy-rook", state: BState::of(&d), expect: Some("InvalidCastlingRights") }));
     // EP aspect
     {
         let eprank: u8 = if m.stm == WHITE { 5 } else { 2 };
